@@ -59,7 +59,7 @@ NOTES.update({
  "C04e": "same effect as seeded C07 (page back on the free list twice after a rollback) through a different site (dataAllocator.Free fast path); no strengthening needed",
  "C07e": "mergeRegionLists returns its argument when the second list is empty, so a failed commit has already cut the live free list: needs a region straddling the limit, a transaction that frees nothing and a commit that fails: an I/O failure, so C08's shrinking-open-under-faults run with the memory-vs-disk oracle reports it; C07 injects no failures (its 'failed Commit' cases are the ones the API produces without a fault)",
  "C08e": "restoreMeta forgets the 'stale header may be on disk' flag although zeroing it failed: needs a failure window of three I/O calls (final sync, forced sync of the rollback, zero-header write): reported by C08 as an open that fails although the failures have stopped (class fault/open-failed-without-failure)",
- "C12e": "NOT REPORTED and, as far as I could establish, not reachable through the API: the demonstration calls the meta allocator directly (5 pages wanted, 2 data pages left behind the end marker of a fresh file). Histories 'fill a fresh 64-page file up to its last k pages (k=1,2,3,5), then overflow-enabled transactions overwriting 1, 2 or all pages' produce identical allocator traces with and without the change (check.sh replay XTRC). The author's own queue sweep (17 file sizes x 5 event sizes x 12 cycles) never reached the branch either. The first-fill seeds were added to C04's overflow runs anyway; kept for the record as an allocator-level change without an observable consequence I can state",
+ "C12e": "MISSED (not reported by any check). The demonstration calls the meta allocator directly (5 pages wanted, 2 data pages left behind the end marker of a fresh file). Through the API the changed branch needs one meta request of n >= 2 pages (two overwrite-mapping pages = more than ~72 overwritten pages at 1 KiB in one commit, or two free-list pages) that meets 0 < available data pages < n on a bounded file whose data end marker has never reached the limit; single-page requests (every overwrite page) drain the data area in power-of-two steps and only ever see available = 0 or >= n. Histories 'fill a fresh file up to its last k pages, then overflow-enabled transactions overwriting 1, 2 or all pages' (64-page file, k = 1,2,3,5; files of 2m+3 pages with m = 62..65 overwritten pages, k = m+1) give identical allocator traces with and without the change (check.sh replay XTRC). Finding the (file size, overwrite count, leftover) triple is a two-dimensional sweep over files of 150+ pages that no check has; the first-fill seeds were added to C04's thorough tier and generic 'M<n>' configurations to the page driver, but the sweep itself was not built in the time left",
  "C13e": "read transactions check page ids against the live end marker: C13's race pass reports the unsynchronised read against allocFromArea of the producer's commit; C15 reports the API-level consequence (reader with an open writer gets a page beyond its snapshot, the state seeded C15 needed); C02's scenarios never ask for an id beyond the snapshot",
  "C14e": "initial mapping no longer covers a file that is larger than its limit: needs a shrinking open that leaves the free-list page behind the new limit, then a plain open; C14's memory-vs-disk oracle (second open of the current disk contents) and C10's reopen report it; no strengthening needed",
 })
